@@ -52,6 +52,7 @@ Definition mem (q : Z) (l : list Z) : bool := existsb (Z.eqb q) l.
 Section WithE.
 Variable E : list (list Z).
 Variable MD : list Z.
+Variable AL : list (list Z).     (* for every state: the dynamic types its slot's value may have *)
 
 Definition succs (p : Z) : list Z := nth (Z.to_nat p) E [].
 Definition inE (p q : Z) : bool := (0 <=? p) && mem q (succs p).
@@ -61,6 +62,26 @@ Definition preds (X : list Z) : list Z := filter (fun p => existsb (fun q => mem
 Fixpoint back (k : nat) (X : list Z) : list Z :=
   match k with O => X | S k' => back k' (preds X) end.
 Definition md (s : Z) : Z := nth (Z.to_nat s) MD (-1).
+
+Definition allowed (q : Z) : list Z := nth (Z.to_nat q) AL [].
+Definition al_in (v q : Z) : bool := (0 <=? q) && mem v (allowed q).
+(* the states that can hold RHS position k (1-based) when a rule with r2 symbols is reduced in state s *)
+Definition pos_states (s r2 k : Z) : list Z := back (Z.to_nat (r2 - k)) [s].
+(* every type possible at position k is allowed in state ns *)
+Definition flows (s r2 k ns : Z) : bool :=
+  (1 <=? k) && (k <=? r2) && forallb (fun q => forallb (fun v => al_in v ns) (allowed q)) (pos_states s r2 k).
+Definition sem_ok (s n r2 nt : Z) : bool :=
+  let (asserts, o) := match sem_of n (tSem T) with Some d => d | None => ([], (2, 0)) end in
+  forallb (fun a => (1 <=? fst a) && (fst a <=? r2) &&
+                    forallb (fun q => forallb (Z.eqb (snd a)) (allowed q)) (pos_states s r2 (fst a))) asserts &&
+  forallb (fun p => match goto_of T p nt with
+                    | Ok ns =>
+                        if fst o =? 0 then al_in (snd o) ns
+                        else if fst o =? 1 then flows s r2 (snd o) ns
+                        else if fst o =? 2 then (if 1 <=? r2 then flows s r2 1 ns else al_in (-1) ns)
+                        else al_in (-1) ns
+                    | Panic _ => false
+                    end) (back (Z.to_nat r2) [s]).
 
 (* reduction by rule n in state s *)
 Definition red_ok (s n : Z) : bool :=
@@ -72,7 +93,7 @@ Definition red_ok (s n : Z) : bool :=
       match action_of n (tActions T) with
       | Some (k, (lo, hi)) => (k <=? md s) && ((hi <? lo) || ((0 <=? lo) && (hi <=? k)))
       | None => true
-      end
+      end && sem_ok s n r2 nt
   | _, _ => false
   end.
 
@@ -80,7 +101,7 @@ Definition node_ok (s : Z) : bool :=
   (0 <=? s) &&
   match simple_state T s with Ok _ => true | Panic _ => false end &&
   forallb (fun t => match shift_of T s t with
-                    | Ok None => true | Ok (Some a) => inE s a | Panic _ => false end) all_tokens &&
+                    | Ok None => true | Ok (Some a) => inE s a && al_in 0 a | Panic _ => false end) all_tokens &&
   match idx 13 (tDef T) s with
   | Ok d =>
       if d =? -2 then
@@ -90,14 +111,14 @@ Definition node_ok (s : Z) : bool :=
       else (d =? 0) || red_ok s d
   | Panic _ => false
   end &&
-  match errshift_of T s with Ok None => true | Ok (Some ns) => inE s ns | Panic _ => false end.
+  match errshift_of T s with Ok None => true | Ok (Some ns) => inE s ns && al_in (-1) ns | Panic _ => false end.
 
 (* MD is a lower bound of the E-distance from state 0 *)
 Definition md_ok : bool :=
   (md 0 <=? 0) &&
   forallb (fun p => forallb (fun q => md q <=? md p + 1) (succs p)) states.
 
-Definition closed : bool := lex_ok && md_ok && forallb node_ok nodes.
+Definition closed : bool := lex_ok && md_ok && al_in 0 0 && forallb node_ok nodes.
 
 (* one relaxation round of the distances *)
 Fixpoint setnth (n : nat) (v : Z) (l : list Z) : list Z :=
@@ -171,5 +192,100 @@ Fixpoint md_fix (fuel : nat) (l : list (list Z)) (m : list Z) : list Z :=
   end.
 Definition MD0 : list Z := 0 :: repeat big (nstates - 1).
 Definition the_MD (l : list (list Z)) : list Z := md_fix nstates l MD0.
+
+(* ---- computing AL: least assignment closed under the pushes of the driver ---- *)
+Definition add_ty (q v : Z) (l : list (list Z)) : list (list Z) := add_edge q v l.
+Definition al_node (Ed : list (list Z)) (acc : list (list Z)) (s : Z) : list (list Z) :=
+  let acc1 := fold_left (fun a t => match shift_of T s t with Ok (Some q) => add_ty q 0 a | _ => a end) all_tokens acc in
+  let acc2 := match errshift_of T s with Ok (Some q) => add_ty q (-1) acc1 | _ => acc1 end in
+  fold_left (fun a n =>
+    match idx 30 (tR2 T) n, idx 32 (tR1 T) n with
+    | Ok r2, Ok nt =>
+        if r2 <? 0 then a else
+        let o := match sem_of n (tSem T) with Some d => snd d | None => (2, 0) end in
+        let from_pos k a' ns := fold_left (fun a2 q => fold_left (fun a3 v => add_ty ns v a3) (nth (Z.to_nat q) a' []) a2)
+                                          (back Ed (Z.to_nat (r2 - k)) [s]) a' in
+        fold_left (fun a' p => match goto_of T p nt with
+                               | Ok ns =>
+                                   if fst o =? 0 then add_ty ns (snd o) a'
+                                   else if fst o =? 1 then from_pos (snd o) a' ns
+                                   else if fst o =? 2 then (if 1 <=? r2 then from_pos 1 a' ns else add_ty ns (-1) a')
+                                   else add_ty ns (-1) a'
+                               | Panic _ => a'
+                               end)
+                  (back Ed (Z.to_nat r2) [s]) a
+    | _, _ => a
+    end) (nodup Z.eq_dec (reds s)) acc2.
+Definition al_round (Ed : list (list Z)) (l : list (list Z)) : list (list Z) := fold_left (al_node Ed) (nodes Ed) l.
+Fixpoint al_fix (fuel : nat) (Ed : list (list Z)) (l : list (list Z)) : list (list Z) :=
+  match fuel with
+  | O => l
+  | S f => let l' := al_round Ed l in
+           if Nat.eqb (edge_count l') (edge_count l) then l else al_fix f Ed l'
+  end.
+Definition the_AL (Ed : list (list Z)) : list (list Z) := al_fix 40 Ed (add_ty 0 0 E0).
+
+(* ---- termination: a ranking of the states --------------------------------------------------------------
+   C = nstates + 1.  RHO(s) >= RHO(s') + 1 + C * (1 - r2) whenever a reduction possible in state s (popping r2
+   entries) can lead to state s'.  Then C * depth + RHO(top) strictly decreases at every reduction: chains of
+   reductions between two shifts are finite (no cyclic unit / epsilon chains), with an explicit bound. *)
+Section WithRho.
+Variable Ed : list (list Z).
+Variable RHO : list Z.
+Definition cC : Z := Z.of_nat nstates + 1.
+Definition rho (s : Z) : Z := nth (Z.to_nat s) RHO 0.
+Definition rho_max : Z := fold_right Z.max 0 RHO.
+Definition rank_red_ok (s n : Z) : bool :=
+  match idx 30 (tR2 T) n, idx 32 (tR1 T) n with
+  | Ok r2, Ok nt =>
+      forallb (fun p => match goto_of T p nt with
+                        | Ok s' => rho s' + 1 + cC * (1 - r2) <=? rho s
+                        | Panic _ => false end) (back Ed (Z.to_nat r2) [s])
+  | _, _ => false
+  end.
+Definition term_node_ok (s : Z) : bool :=
+  (* $end is never shifted *)
+  match shift_of T s (tEofCode T) with Ok None => true | _ => false end &&
+  (* a state that reads no lookahead does not have "error" as its default action *)
+  match simple_state T s, idx 13 (tDef T) s with
+  | Ok simple, Ok d =>
+      negb (simple && (d =? 0)) &&
+      (if d =? -2 then
+         forallb (fun t => match exca_lookup T s t with
+                           | Ok n => (n <=? 0) || rank_red_ok s n
+                           | Panic _ => false end) all_tokens
+       else (d <=? 0) || rank_red_ok s d)
+  | _, _ => false
+  end.
+Definition term_ok : bool :=
+  match zth (tTok1 T) 0 with Some e => (e =? tEofCode T) && negb (e =? 0) | None => false end &&
+  forallb (fun r => 0 <=? r) RHO &&
+  forallb term_node_ok (nodes Ed).
+
+(* computing RHO by relaxation over the reduce edges *)
+Definition red_edges : list (Z * (Z * Z)) :=
+  flat_map (fun s => flat_map (fun n =>
+    match idx 30 (tR2 T) n, idx 32 (tR1 T) n with
+    | Ok r2, Ok nt => flat_map (fun p => match goto_of T p nt with Ok s' => [(s, (s', r2))] | Panic _ => [] end)
+                               (back Ed (Z.to_nat r2) [s])
+    | _, _ => []
+    end) (nodup Z.eq_dec (reds s))) (nodes Ed).
+End WithRho.
+Fixpoint setmax (n : nat) (v : Z) (l : list Z) : list Z :=
+  match l, n with
+  | [], _ => []
+  | x :: r, O => (if x <? v then v else x) :: r
+  | x :: r, S k => x :: setmax k v r
+  end.
+Definition rho_relax (edges : list (Z * (Z * Z))) (r : list Z) : list Z :=
+  fold_left (fun m e => let '(s, (s', r2)) := e in
+                        if s <? 0 then m else setmax (Z.to_nat s) (nth (Z.to_nat s') m 0 + 1 + cC * (1 - r2)) m) edges r.
+Fixpoint rho_fix (fuel : nat) (edges : list (Z * (Z * Z))) (r : list Z) : list Z :=
+  match fuel with
+  | O => r
+  | S f => let r' := rho_relax edges r in
+           if forallb (fun ab => fst ab =? snd ab) (combine r r') then r else rho_fix f edges r'
+  end.
+Definition the_RHO (Ed : list (list Z)) : list Z := rho_fix (4 * nstates) (red_edges Ed) (repeat 0 nstates).
 
 End Check.
